@@ -127,6 +127,8 @@ structure IsOutput (o : Opts) (input : List Rec) (out : Rec) : Prop where
   merged : ∀ k ∈ o.stats, ∃ m, out.merged.lookup k = some m ∧
     ∀ v, weight m v = contribSum o.na k (classOf o input (key o out)) v
   attrs : ∀ kv, kv ∈ out.attrs ↔ ∀ r ∈ classOf o input (key o out), r.attrs.lookup kv.1 = some kv.2
+  /-- the kept annotations still form a map -/
+  wf : out.WF
 
 theorem terminal_output (h : Seq → Nat) (o : Opts) (input : List Rec) (hnd : o.stats.Nodup)
     (hc : ∀ r ∈ input, 1 ≤ r.count) (hwf : ∀ r ∈ input, r.WF) (t : List Rec)
@@ -157,7 +159,7 @@ theorem terminal_output (h : Seq → Nat) (o : Opts) (input : List Rec) (hnd : o
       exact h1.2 c ‹_›
     have ecls : r :: rs = classOf o input (key o out) := by
       rw [hkey, hr.2]; exact et
-    refine ⟨out, hout, ⟨?_, ?_, ?_, ?_⟩, ecls, s3⟩
+    refine ⟨out, hout, ⟨?_, ?_, ?_, ?_, ?_⟩, ecls, s3⟩
     · exact ⟨r, by rw [← ecls]; simp, s2, s1⟩
     · rw [← ecls]; exact s3
     · rw [← ecls]; exact s5
@@ -165,6 +167,9 @@ theorem terminal_output (h : Seq → Nat) (o : Opts) (input : List Rec) (hnd : o
       rw [← ecls, s4]
       simp only [List.mem_filter, List.all_eq_true, beq_iff_eq, List.mem_cons, forall_eq_or_imp]
       rw [lookup_iff_mem_of_nodup r.attrs (hwf r hr.1)]
+    · show (out.attrs.map (·.1)).Nodup
+      rw [s4]
+      exact List.Nodup.sublist (List.Sublist.map _ List.filter_sublist) (hwf r hr.1)
 
 theorem mem_uniq {h : Seq → Nat} {o : Opts} {input : List Rec} {out : Rec} :
     out ∈ uniq h o input ↔
